@@ -177,9 +177,9 @@ PROPS['C09'] = {
 PROPS['C10'] = {
     'title': 'Indentation settings only re-render indentation',
     'level': 'model_checking',
-    'vx': {'wsarith': 'ReconstructionSettings::new for ALL widths; measured length = ind*|IND| + cont*|CONT| without overflow; lemma: tab rendering maps onto space rendering iff continuation_indents*tab_width <= 255'},
+    'vx': {'wsarith': 'front-end conversion From<&FormattingConfig> for ReconstructionSettings for ALL (use_tabs, tab_width, continuation_indents): one unit = one tab or tab_width spaces, one continuation = continuation_indents units saturating at 255 columns; ReconstructionSettings::new for ALL widths; measured length = ind*|IND| + cont*|CONT| without overflow'},
     'kx': {
-        'settings': 'config -> (unit, |IND|, |CONT|) incl. saturation at 255',
+        'settings': 'config -> (unit, |IND|, |CONT|) on concrete settings, through the real str::repeat',
         'recon': 'emitted bytes = IND^ind CONT^cont',
     },
     'not_decided': ['that wrapping decisions depend on the indentation strings only through LineWhitespace::len (frame, by reading)'],
@@ -322,4 +322,8 @@ VX_KX_PAIRS = {
     'lexops/asm_number_literal': [('lexscan', 'verif_lex::lexscan_counts4')],
     'lexops/hex_number_literal': [('lexscan', 'verif_lex::lexscan_counts4')],
     'lexops/binary_number_literal': [('lexscan', 'verif_lex::lexscan_counts4')],
+    'lexops/asm_text_literal': [('lexcomplex', 'verif_lex::lexcomplex_asm_text_literal')],
+    'lexops/unicode_identifier': [('lexcomplex', 'verif_lex::lexcomplex_unicode_identifier')],
+    'lexloop/count_leading_whitespace': [('lexscan', 'verif_lex::lexscan_ws_ascii4'), ('lexscan', 'verif_lex::lexscan_ws_ideographic')],
+    'wsarith/ReconstructionSettings::new': [('settings', 'verif_settings::settings_recon_spaces_2_2'), ('settings', 'verif_settings::settings_recon_tabs_4_3')],
 }
